@@ -19,10 +19,11 @@ def discharge(w, ob, timeout_ms=DEFAULT_TIMEOUT_MS, fuel=3):
     s.set("timeout", timeout_ms)
     for a in w.axioms:
         s.add(a)
-    pc, goal = eliminate_defs(w, list(ob.pc), ob.goal)
+    pc, goal = eliminate_defs(w, propagate_units(list(ob.pc)), ob.goal)
     pc = [inline_nonrec(w, c) for c in pc]
     goal = inline_nonrec(w, goal)
-    pc, goal = eliminate_defs(w, pc, goal)
+    pc, goal = eliminate_defs(w, propagate_units(pc), goal)
+    pc, goal = eliminate_defs(w, propagate_units(pc), goal)
     k_inl = getattr(ob, "inline_goal", 0)
     if k_inl:
         from .specs import inline_rec_once
@@ -31,7 +32,8 @@ def discharge(w, ob, timeout_ms=DEFAULT_TIMEOUT_MS, fuel=3):
         s.add(c)
     s.add(z3.Not(goal))
     eqs = unfold(w, [goal], fuel=getattr(ob, "fuel", fuel), facts=pc,
-                 allclass_budget=getattr(ob, "allclass", 8))
+                 allclass_budget=getattr(ob, "allclass", 8),
+                 facts_fuel=getattr(ob, "facts_fuel", 3))
     for q in eqs:
         s.add(q)
     for g in w.ground_len_facts(pc + [goal] + eqs):
@@ -72,6 +74,58 @@ def _contains(t, c):
         if z3.is_app(x):
             stack.extend(x.children())
     return False
+
+
+def propagate_units(pc, rounds=4):
+    """Cheap unit propagation over the path condition: conjunctions are flattened;
+    Implies(A, B) with every conjunct of A among the facts contributes B;  a disjunction whose other
+    members are refuted by the facts contributes the remaining one.  Only consequences are added."""
+    def flat(f, out):
+        if z3.is_and(f):
+            for c in f.children():
+                flat(c, out)
+        else:
+            out.append(f)
+    facts = []
+    for f in pc:
+        flat(f, facts)
+    for _ in range(rounds):
+        true_ids = {f.get_id() for f in facts}
+        false_ids = {f.arg(0).get_id() for f in facts if z3.is_not(f)}
+
+        def holds(a):
+            if z3.is_and(a):
+                return all(holds(c) for c in a.children())
+            if z3.is_true(a):
+                return True
+            if z3.is_not(a) and a.arg(0).get_id() in false_ids:
+                return True
+            return a.get_id() in true_ids
+
+        def refuted(a):
+            if z3.is_false(a):
+                return True
+            if z3.is_not(a):
+                return holds(a.arg(0))
+            return a.get_id() in false_ids
+        new = []
+        for f in facts:
+            if z3.is_implies(f) and holds(f.arg(0)):
+                flat(f.arg(1), new)
+            elif z3.is_or(f):
+                rest = [c for c in f.children() if not refuted(c)]
+                if len(rest) == 1:
+                    flat(rest[0], new)
+            elif z3.is_app(f) and f.decl().kind() == z3.Z3_OP_ITE and f.sort() == z3.BoolSort():
+                if holds(f.arg(0)):
+                    flat(f.arg(1), new)
+                elif refuted(f.arg(0)):
+                    flat(f.arg(2), new)
+        new = [n for n in new if n.get_id() not in true_ids]
+        if not new:
+            break
+        facts.extend(new)
+    return facts
 
 
 def eliminate_defs(w, pc, goal, rounds=6):
